@@ -843,7 +843,7 @@ pub fn run(prop: &'static str, ctx: &mut Ctx) {
     ctx.stats.merge(enumerated);
     ctx.exhaustive = Some(!enum_failed);
     // (b2) large constructed graphs
-    let sizes: Vec<usize> = tier.pick(vec![9, 17, 33, 65, 130], vec![9, 17, 33, 65, 129, 130, 260, 520]);
+    let sizes: Vec<usize> = tier.pick(vec![9, 17, 33, 65, 130, 300, 1100], vec![9, 17, 33, 65, 129, 130, 260, 520, 1030, 2300, 4200]);
     let mut bigs: Vec<(GCase, Key, Key)> = vec![];
     big_family(&sizes, |g, r, t| bigs.push((g.clone(), r, t)));
     let big = parallel(workers.min(bigs.len().max(1)), |w| {
@@ -861,6 +861,7 @@ pub fn run(prop: &'static str, ctx: &mut Ctx) {
                 ($F:ty) => {{
                     let nodes = build::<$F>(g);
                     for cell in cells_for(prop, <$F>::DIRECTED) {
+                        wd.tick();
                         let (root, target) = if cell.transposed() { (*t, *r) } else { (*r, *t) };
                         let cell = with_target(&cell, Some(target));
                         // filters: nothing rejected / every third edge rejected
